@@ -496,7 +496,7 @@ def gen_histories(run):
         ("triple-repeat", [("periodic", 1, 1), ("end", 1, 1), ("end", 1, 1), ("periodic", 2, 1)]),
         ("step0-end", [("end", 0, 1)]),
     ]
-    extra = 1 if run.quick else 60
+    extra = 1 if run.quick else 40
     for i in range(extra):
         ev, step = [], rng.randint(0, 3)
         for _ in range(rng.randint(2, 5)):
